@@ -1515,6 +1515,10 @@ class TrajectoryStore:
         if not self.indexable or not self.index_stale:
             return
 
+        # An in-memory store has no index to maintain until it is saved.
+        if not self.nc_linked:
+            return
+
         # Get the NetCDF4 groups for the base field set.
         gs = self._nc[BASE_FIELDSET_NAME].groups[BASE_FIELDSET_NAME]
 
